@@ -651,8 +651,8 @@ class C20(PropCheck):
             return None
         if sec == 'font-face':
             for part in impl.split(' | '):
-                if 'err:' in part and 'err:TypeError' not in part:
-                    return f'add_font_face raised {part.split(" ")[-1]} (fetch failures must be skipped)'
+                if 'err:' in part:
+                    return f'add_font_face raised {part.split(" ")[-1]} (a src entry that fails must be skipped)'
             return None
         if sec == 'attachments' and 'spec' in meta:
             spec = meta['spec']
@@ -852,16 +852,15 @@ MANIFEST = {
             'a file object is closed exactly once on every path; get_image_from_uri returns an image or None for every fetch '
             'outcome that fails at the fetcher or delivers bytes (any bytes), caches failures, fetches each (URL, orientation) '
             'at most once and depends on the fetcher only at the requested URL; find_stylesheets / @import / add_font_face / '
-            'write_pdf_attachment never raise under the same hypothesis; a failing <img>, <embed>, <object>, <link>, @import, '
+            'write_pdf_attachment never raise under the same hypothesis (add_font_face under none); a failing <img>, <embed>, <object>, <link>, @import, '
             'font src entry or attachment leaves exactly what the document without it leaves; the whole pipeline (render + '
             'write_pdf) completes and opens no local file on every document whose fetches are absorbed; the bytes embedded at '
             'write time are the fetcher\'s unless the reported location is a file: URL. Call sites that open files, URLs or '
             'sockets, and call sites of the fetcher, are regenerated from the source each run and checked against whitelists.',
     'note': 'Partial: which files and sockets the process opens is runtime behaviour, observed by an audit hook on generated '
             'documents only (nested SVG <image>/<use> fetches are not modelled). Theorems named _partial carry the hypothesis '
-            'that excludes four known findings, each with a Lean witness replayed on the implementation every run: '
+            'that excludes three known findings, each with a Lean witness replayed on the implementation every run: '
             'LazyLocalImage re-reads file: URLs at write time (F19); a file object whose read() raises escapes from image / '
-            'stylesheet / attachment loading; well-formed non-SVG XML is accepted as an image; a fetched-but-unusable font '
-            'followed by local() raises TypeError. Third-party parsers (Pillow, ElementTree, fontTools, fontconfig, tinycss2, '
+            'stylesheet / attachment loading; well-formed non-SVG XML is accepted as an image. Third-party parsers (Pillow, ElementTree, fontTools, fontconfig, tinycss2, '
             'urllib) are parameters of the model.',
 }
